@@ -382,9 +382,11 @@ depth itself is not modelled. -/
 def walkDoubles : Nat → Nat → Store → M Store
   | 0, _, _ => throw .fuel
   | fuel + 1, root, s =>
-    -- `root + 1`: u32 overflow in the checked profile; the release build wraps to 0 and
-    -- `BTreeMap::range` then panics (start > end) unless the map is empty
-    if root + 1 ≥ W32 then throw .overflow
+    -- `root + 1`: u32 overflow panic in the checked profile; the release build wraps to 0 and
+    -- `BTreeMap::range` then panics (start > end) unless the map is empty. Classified `.panic`
+    -- (unreachable inside the contract: `add_no_panic`); `.overflow` is reserved for the u64
+    -- exponent / cycle-length counters
+    if root + 1 ≥ W32 then throw .panic
     else do
       let pqs := (s.doubles.filter (fun e => e.1.1 = root)).map (fun e => e.1)
       let qps := s.doublesRev.filter (fun e => e.1 = root)
